@@ -23,7 +23,7 @@ from vsim.scratch import Scratch  # noqa: E402
 
 PROPERTY = "C02"
 LEVEL = "exploration"
-RUNS = {"quick": 2400, "thorough": 40000}
+RUNS = {"quick": 3000, "thorough": 40000}
 RULE = ("one run = seeded world where the gated code would have work (GEL edges, several graphs, memory, reflection requested by the "
         "plan) + validated base config B + 1-3 gated-off subtrees filled with generated validator-accepted values (B+), 2-6 ops; "
         "both arms executed and compared after every op. non-trivial = B+ differs from B after normalisation and at least one turn "
